@@ -14,6 +14,7 @@
 //
 //	send[.raw]  aF aT COINS          BankKeeper.SendCoins
 //	sendu[.raw] aF aT COINS          BankKeeper.SendCoinsUnrestricted (fees, storage deposits)
+//	fee[.raw]   aF aC COINS          auth.DeductFees(bank, ctx, account(aF), collector aC, COINS) — the ante handler's fee payment
 //	multi[.raw] INS OUTS             BankKeeper.InputOutputCoins
 //	mint[.raw]  a COINS              BankKeeper.MintCoins   (realm issuance, genesis funding)
 //	burn[.raw]  a COINS              BankKeeper.BurnCoins
@@ -209,6 +210,12 @@ func classifyErr(err error) string {
 		return "err:vesting-locked"
 	case bank.InputOutputMismatchError:
 		return "err:io-mismatch"
+	case std.UnknownAddressError:
+		return "err:unknown-address"
+	case std.InsufficientFeeError:
+		return "err:insufficient-fee"
+	case std.InsufficientFundsError:
+		return "err:insufficient-funds"
 	}
 	msg := err.Error()
 	switch {
@@ -258,6 +265,18 @@ func (e *env) call(ctx sdk.Context, op string, t []string) error {
 	case "sendu":
 		need(3)
 		return e.bank.SendCoinsUnrestricted(ctx, parseAddr(t[0]), parseAddr(t[1]), parseCoins(t[2]))
+	case "fee":
+		need(3)
+		from, coll, fees := parseAddr(t[0]), parseAddr(t[1]), parseCoins(t[2])
+		acc := e.acck.GetAccount(ctx, from)
+		if acc == nil { // the ante handler fails earlier, in GetSignerAcc
+			return std.ErrUnknownAddress("no account")
+		}
+		res := auth.DeductFees(e.bank, ctx, acc, coll, fees)
+		if res.IsOK() {
+			return nil
+		}
+		return res.Error
 	case "multi":
 		need(2)
 		ia, ic := parseIO(t[0])
@@ -589,37 +608,34 @@ func (s *snapshot) structure() string {
 	return ""
 }
 
-func (s *snapshot) supplyEq() string {
-	held, rec := s.sums()
-	for d, r := range rec {
-		h := held[d]
-		if h == nil {
-			h = new(big.Int)
-		}
-		if h.Cmp(r) != 0 {
-			return fmt.Sprintf("VIOL:supply-mismatch %s recorded=%s held=%s", d, r, h)
+func sortedKeys(ms ...map[string]*big.Int) []string {
+	seen := map[string]bool{}
+	var ks []string
+	for _, m := range ms {
+		for k := range m {
+			if !seen[k] {
+				seen[k] = true
+				ks = append(ks, k)
+			}
 		}
 	}
-	for d, h := range held {
-		if rec[d] == nil && h.Sign() != 0 {
-			return fmt.Sprintf("VIOL:supply-mismatch %s recorded=0 held=%s", d, h)
+	sort.Strings(ks)
+	return ks
+}
+
+func (s *snapshot) supplyEq() string {
+	held, rec := s.sums()
+	for _, d := range sortedKeys(rec, held) {
+		if get(held, d).Cmp(get(rec, d)) != 0 {
+			return fmt.Sprintf("VIOL:supply-mismatch %s recorded=%s held=%s", d, get(rec, d), get(held, d))
 		}
 	}
 	return ""
 }
 
 func sameMap(a, b map[string]*big.Int) (string, bool) {
-	for d, x := range a {
-		y := b[d]
-		if y == nil {
-			y = new(big.Int)
-		}
-		if x.Cmp(y) != 0 {
-			return d, false
-		}
-	}
-	for d, y := range b {
-		if a[d] == nil && y.Sign() != 0 {
+	for _, d := range sortedKeys(a, b) {
+		if get(a, d).Cmp(get(b, d)) != 0 {
 			return d, false
 		}
 	}
@@ -644,7 +660,7 @@ func exec(toks []string) (string, string) {
 	if strings.HasSuffix(op, ".raw") {
 		op, raw = strings.TrimSuffix(op, ".raw"), true
 		switch op {
-		case "send", "sendu", "multi", "mint", "burn", "add", "sub":
+		case "send", "sendu", "fee", "multi", "mint", "burn", "add", "sub":
 		default:
 			return "err:badop", "-"
 		}
@@ -707,7 +723,7 @@ func exec(toks []string) (string, string) {
 	if !okRes && !raw && changed {
 		return out, "VIOL:failed-op-changed-state"
 	}
-	if e.tainted {
+	if e.tainted && os.Getenv("C14_ORACLE_STRICT") == "" { // STRICT: self-test of the oracle (expects VIOLs on keeper-level ops)
 		return out, "-"
 	}
 	if v := after.supplyEq(); v != "" {
@@ -745,7 +761,7 @@ func exec(toks []string) (string, string) {
 		if d, same := sameMap(rb, ra); !same {
 			return out, fmt.Sprintf("VIOL:supply-changed %s by %s: %s -> %s", d, op, get(rb, d), get(ra, d))
 		}
-		if op == "send" || op == "sendu" || op == "multi" {
+		if op == "send" || op == "sendu" || op == "fee" || op == "multi" {
 			if d, same := sameMap(hb, ha); !same {
 				return out, fmt.Sprintf("VIOL:transfer-sum %s by %s: %s -> %s", d, op, get(hb, d), get(ha, d))
 			}
